@@ -2,6 +2,7 @@ package nsim
 
 import (
 	"fmt"
+	"runtime"
 	"sort"
 	"time"
 	"unsafe"
@@ -24,7 +25,10 @@ func genSL(seed uint64, tier string) *Plan {
 	r := NewRng(seed, purposePlan)
 	p := &Plan{Scenario: "sl", Seed: seed, Knobs: map[string]int{}}
 	p.Knobs["mm"] = r.Intn(2)
-	p.Knobs["protect"] = r.Intn(2)
+	p.Knobs["protect"] = 0
+	if r.Bool(0.25) {
+		p.Knobs["protect"] = 1
+	}
 	nkeys := r.Range(1, 4)
 	p.Knobs["nkeys"] = nkeys
 	p.Knobs["ladder"] = []int{0, 0, 3, 6, 12, 32}[r.Intn(6)] // pre-built towers up to this height
@@ -181,6 +185,9 @@ func runSL(env *Env) {
 	mm := plan.Knob("mm", 0) == 1
 	var ga *GuardAlloc
 	var items []*intItem // keep items reachable for the Go collector
+	// items are referenced from node memory the collector cannot see (user-managed
+	// mode): they must stay alive until the last oracle has read the structure
+	defer func() { runtime.KeepAlive(&items) }()
 	newItem := func(k int) unsafe.Pointer {
 		it := &intItem{key: k}
 		items = append(items, it)
